@@ -44,6 +44,22 @@ def gen(rng, tier):
             k = hx(rng.choice(keys))
             st = rng.choice(SETS) if rng.randrange(4) == 0 else "sub"
             rep = rng.randrange(n)
+            if r in (1, 2) and rng.randrange(12) == 0:
+                # a value that outgrows what the durable backend's read cache accepts for one entry (about 1000 bytes):
+                # short value first, read, then the big one, read again
+                clock += 1
+                ops.append("clock %d" % clock)
+                ops.append("add %d %s %s %s" % (rep, st, k, hx(rbytes(rng, 1))))
+                ops.append("get %d %s %s" % (rep, st, k))
+                clock += 1
+                ops.append("clock %d" % clock)
+                ops.append("del %d %s %s" % (rep, st, k))
+                ops.append("get %d %s %s" % (rep, st, k))
+                clock += 1
+                ops.append("clock %d" % clock)
+                ops.append("add %d %s %s %s" % (rep, st, k, hx(rbytes(rng, rng.choice([990, 1100, 1500, 5000])))))
+                ops.append("get %d %s %s" % (rep, st, k))
+                continue
             if r == 0:
                 clock = max(0, clock + rng.choice([1, 1, 2, 5, -1, -3, 0]))
                 ops.append("clock %d" % clock)
